@@ -1065,6 +1065,12 @@ impl<'tcx> Cx<'tcx> {
             t.push(("ln", n(tln)));
             if term.source_info.span.from_expansion() {
                 t.push(("texp", J::Bool(true)));
+                // outermost macro of the expansion this terminator comes from
+                if let Some(ed) = term.source_info.span.macro_backtrace().last() {
+                    if let Some(m) = ed.macro_def_id {
+                        t.push(("tmacro", s(tcx.def_path_str(m))));
+                    }
+                }
             }
             let mut bv = vec![("id", n(bb.as_u32()))];
             if !stmts.is_empty() {
